@@ -92,6 +92,11 @@ structure Faults where
   read : List Path := []
   /-- original paths whose `WriteReader` fails in this phase; `some k` = after `k` bytes were staged -/
   write : List (Path × Option Nat) := []
+  /-- TRANSIENT read faults `(path, n, d)`: the first `n` `ReadTo` attempts of the file fail, each
+  after delivering `d` bytes to the writer; later attempts succeed -/
+  readT : List (Path × Nat × Nat) := []
+  /-- TRANSIENT write faults `(path, n, staged)`: the first `n` `WriteReader` attempts fail -/
+  writeT : List (Path × Nat × Option Nat) := []
   /-- `metadata/arc.db`: the copy into the backup fails (backup) / reading it back fails (restore) -/
   sqlite : Bool := false
   /-- `config/arc.toml`: likewise -/
@@ -102,11 +107,33 @@ inductive Outcome
   | readErr
   | writeErr (staged : Option Nat)
 
-def Faults.outcome (f : Faults) (p : Path) : Outcome :=
+/-- outcome of one file's read-then-write when the code makes at most `ra` `ReadTo` attempts and `wa`
+`WriteReader` attempts (a retry only follows a failure). -/
+def Faults.outcomeA (ra wa : Nat) (f : Faults) (p : Path) : Outcome :=
   if f.read.contains p then .readErr
+  else if (match f.readT.lookup p with
+      | some (n, _) => decide (ra ≤ n)
+      | none => false) then .readErr
   else match f.write.lookup p with
     | some s => .writeErr s
-    | none => .ok
+    | none =>
+      match f.writeT.lookup p with
+      | some (n, s) => if wa ≤ n then .writeErr s else .ok
+      | none => .ok
+
+def repeatBytes : Nat → Bytes → Bytes
+  | 0, _ => []
+  | n + 1, b => b ++ repeatBytes n b
+
+/-- what the temp file holds after a successful read phase: when a retry does NOT reset the temp
+file, the prefixes delivered by the failed attempts stay in front of the full re-read. -/
+def readContent (ra : Nat) (resets : Bool) (f : Faults) (p : Path) (b : Bytes) : Bytes :=
+  match f.readT.lookup p with
+  | some (n, d) => if decide (n < ra) && !resets then repeatBytes n (b.take d) ++ b else b
+  | none => b
+
+/-- the read phase hands on exactly the source bytes: no retry, or a retry that resets the temp file -/
+def readExact (ra : Nat) (resets : Bool) : Bool := decide (ra ≤ 1) || resets
 
 def noFaults : Faults := {}
 
@@ -209,6 +236,14 @@ structure Policy where
   backupKeepsPart : Bool
   /-- `streamRestoreFile` does NOT clean `<dest>.part` after a failed `WriteReader` -/
   restoreKeepsPart : Bool
+  /-- `streamBackupFile` / `streamRestoreFile`: number of `ReadTo` / `WriteReader` attempts per file
+  (1 = no retry) and whether a read retry truncates+rewinds the temp file first -/
+  backupReadAttempts : Nat
+  backupRetryResets : Bool
+  backupWriteAttempts : Nat
+  restoreReadAttempts : Nat
+  restoreRetryResets : Bool
+  restoreWriteAttempts : Nat
   /-- `maxSkipRatio` as a fraction -/
   ratioNum : Nat
   ratioDen : Nat
@@ -318,10 +353,18 @@ def ratioExceeded (pol : Policy) (skipped total : Nat) : Bool :=
 def backupCfg (pol : Policy) : LoopCfg :=
   { onRead := pol.backupReadErr, onWrite := pol.backupWriteErr, keepStaged := pol.backupKeepsPart }
 
+def bOutcome (pol : Policy) (f : Faults) : Path → Outcome :=
+  f.outcomeA pol.backupReadAttempts pol.backupWriteAttempts
+
+def bContent (pol : Policy) (f : Faults) (e : Path × Bytes) : Path × Bytes :=
+  (e.1, readContent pol.backupReadAttempts pol.backupRetryResets f e.1 e.2)
+
+def backupExact (pol : Policy) : Bool := readExact pol.backupReadAttempts pol.backupRetryResets
+
 /-- `CreateBackup` over the listing `t` (in `ListObjects` order). -/
 def backup (pol : Policy) (f : Faults) (t : Tree) : Backup :=
-  let items := backupItems t
-  let st := copyLoop (backupCfg pol) f.outcome items { dest := [] }
+  let items := (backupItems t).map (bContent pol f)
+  let st := copyLoop (backupCfg pol) (bOutcome pol f) items { dest := [] }
   let mk (s : BStatus) (m : Option Manifest) : Backup :=
     { status := s, store := st.dest, manifest := m, processed := st.processed, pbytes := st.bytes,
       skipped := st.skipped, total := items.length }
@@ -352,6 +395,14 @@ structure Restored where
 def restoreCfg (pol : Policy) : LoopCfg :=
   { onRead := pol.restoreFileErr, onWrite := pol.restoreFileErr, keepStaged := pol.restoreKeepsPart }
 
+def rOutcome (pol : Policy) (f : Faults) : Path → Outcome :=
+  f.outcomeA pol.restoreReadAttempts pol.restoreWriteAttempts
+
+def rContent (pol : Policy) (f : Faults) (e : Path × Bytes) : Path × Bytes :=
+  (e.1, readContent pol.restoreReadAttempts pol.restoreRetryResets f e.1 e.2)
+
+def restoreExact (pol : Policy) : Bool := readExact pol.restoreReadAttempts pol.restoreRetryResets
+
 /-- `RestoreBackup{RestoreData: true}` where `items` is what `backupStorage.List(<id>/data/)`
 returned (paths with the prefix stripped, with the bytes stored there), into data storage `d0`. -/
 def restoreItems (pol : Policy) (f : Faults) (manifest : Option Manifest) (items : Tree) (d0 : Tree) : Restored :=
@@ -360,7 +411,7 @@ def restoreItems (pol : Policy) (f : Faults) (manifest : Option Manifest) (items
   | some m =>
     if f.manifest then { status := .failedNoManifest, data := d0, processed := 0, pbytes := 0, total := 0, tbytes := 0 }
     else
-      let st := copyLoop (restoreCfg pol) f.outcome items { dest := d0 }
+      let st := copyLoop (restoreCfg pol) (rOutcome pol f) (items.map (rContent pol f)) { dest := d0 }
       { status := if st.aborted || st.skipped != 0 then .failedData else .completed,
         data := st.dest, processed := st.processed, pbytes := st.bytes, total := items.length,
         tbytes := m.totalSize }
